@@ -5,6 +5,7 @@ cd "$(dirname "$0")"
 export CARGO_NET_OFFLINE=true
 # regenerate the tables from /repo's current sources (builds the hook test binary), then build everything
 python3 -m vlib.translate
+python3 -m vlib.rs2lean
 python3 - <<'PY'
 import os
 root = 'lean/Sylvia'
